@@ -32,6 +32,7 @@ for sid in sorted(os.listdir("/verif/seeded")):
         print(sid, "seedcheck failed:", p.stdout[-300:], p.stderr[-300:])
         continue
     meta = json.load(open(os.path.join(d, "meta.json")))
+    keep_rate = meta.get("verification", {}).get("detection_by_seed")
     meta["verification"] = {
         "ran": "tools/seedcheck.py seeded/%s %s  (scratch worktree of /repo HEAD; demonstration without/with patch; "
                "pinned suite with patch; listed checks, quick tier, VERIF_REPO=<patched worktree>)" % (sid, " ".join(props)),
@@ -41,6 +42,8 @@ for sid in sorted(os.listdir("/verif/seeded")):
         "checks": {k: {"exit": v["exit"], "wall_s": v["wall"], "first_lines": [l[:300] for l in v["lines"][:3]]}
                    for k, v in r.get("checks", {}).items()},
     }
+    if keep_rate:
+        meta["verification"]["detection_by_seed"] = keep_rate
     json.dump(meta, open(os.path.join(d, "meta.json"), "w"), indent=1)
     print(sid, "demo", r.get("demo_without_patch"), r.get("demo_with_patch"), "suite", r.get("suite_ok"),
           {k: v["exit"] for k, v in r.get("checks", {}).items()})
